@@ -296,21 +296,28 @@ def guard_check(func, targets, recog, kills=(), follow_exc=False, extra_cut=(), 
     g = func.cfg
     edges, hits = cut_edges(func, recog)
     cut = list(edges) + list(extra_cut)
-    for t in targets:
+    plain = g.reachable([g.entry], follow_exc=follow_exc)
+    withexc = plain if follow_exc else g.reachable([g.entry], follow_exc=True)
+    live = [t for t in targets if t in withexc]
+    if targets and not live:
+        raise AnalysisError("guard rule on %s: none of the %d target statements is reachable from the function entry (vacuous)" % (func.qualname, len(targets)))
+    for t in live:
+        # a target that is only reachable through exception edges (it sits in a handler or behind one) is analysed with them
+        fe = follow_exc or t not in plain
         for s in [g.entry] + [k for k in kills if k is not t]:
             if s is g.entry:
-                p = g.path(s, [t], without_edges=cut, follow_exc=follow_exc, without_nodes=without_nodes)
+                p = g.path(s, [t], without_edges=cut, follow_exc=fe, without_nodes=without_nodes)
             else:
                 p = None
                 for b, l in s.out:
-                    if l == "exc" and not follow_exc:
+                    if l == "exc" and not fe:
+                        continue
+                    if b in without_nodes:
                         continue
                     if b is t:
                         p = [s, t]
                         break
-                    if b in without_nodes:
-                        continue
-                    p = g.path(b, [t], without_edges=cut, follow_exc=follow_exc, without_nodes=without_nodes)
+                    p = g.path(b, [t], without_edges=cut, follow_exc=fe, without_nodes=without_nodes)
                     if p is not None:
                         p = [s] + p
                         break
